@@ -68,7 +68,10 @@ def empty_population_specs(ctx):
 def run_level(ctx, rep):
     if not getattr(ctx, "_replaying", False):
         runlevel.with_extra(ctx, "c18empty", lambda: empty_population_specs(ctx))
+    if not getattr(ctx, "_replaying", False):
+        runlevel.scripted_controller_runs(ctx, "c18script", 8 if ctx.quick else 60, want=("ctl", "filt", "gp"))
     traces = runlevel.get_pool(ctx)
+    box_reqs, box_owners = [], []
     stats = {"runs": 0, "searches": 0, "es_generations": 0, "empty_generations": 0, "hedge_calls": 0, "small_populations": 0, "ties": 0}
     es_reqs, es_owners, h_reqs, h_owners = [], [], [], []
     for t in traces:
@@ -83,6 +86,9 @@ def run_level(ctx, rep):
         gens = []
         es_out = []
         for k, e in t["events"]:
+            if k == "FILT" and e["site"] in ("es", "search") and e.get("out") and e.get("sms"):
+                box_reqs.append({"cmd": "mesh.bounds", "h": enc(e["sms"]), "lb": [enc(v) for v in t["hdr"]["lb"]], "ub": [enc(v) for v in t["hdr"]["ub"]]})
+                box_owners.append((case, tag, e))
             if k == "FILT" and e["site"] == "es":
                 es_out.append(e["n_out"])
             if k == "ACQ" and e["site"] == "es":
@@ -130,6 +136,14 @@ def run_level(ctx, rep):
                 n = e["post"]["fc"] - e["pre"]["fc"]
                 if n not in (0, 1):
                     rep.violation("one_evaluation", "bads.py:_search_step_", f"a search step made {n} target evaluations; {tag}", case)
+    stats["candidate_sets_box_checked"] = len(box_reqs)
+    flagged = set()
+    for (case, tag, e), m in zip(box_owners, ctx.driver.call_many(box_reqs)):
+        lo = [float(Fraction(v)) if v not in ("inf", "-inf") else float(v) for v in m["lo"]]
+        hi = [float(Fraction(v)) if v not in ("inf", "-inf") else float(v) for v in m["hi"]]
+        if id(case) not in flagged and any(not (l <= v <= h) for row in e["out"] for v, l, h in zip(row, lo, hi)):
+            flagged.add(id(case))
+            rep.violation("candidates_in_mesh_box", SITE_E, f"a surviving {e['site']} candidate lies outside the box rounded to the current search mesh ({e['sms']}); {tag}", case)
     for (case, tag, e), m in zip(es_owners, ctx.driver.call_many(es_reqs)):
         if m is None or Fraction(m["z"]) != Fraction(e["z_out"]):
             rep.disagree("Srch.esResult ~ ESSearch.__call__", f"model proposes z={m and m['z']} run z={e['z_out']}; {tag}", case)
